@@ -34,6 +34,18 @@ def run_build(sc):
     ss.add("PQ", dict(idx="D1", bus=3, Vn=110.0, p0=0.2, q0=0.05))
     adds = []
     have_slack = False
+    if sc.get("tid", 0) % 2 == 1 and sc["adds"]:
+        # a device that must be refused (its mandatory bus is missing) in front of the additions: the refusal leaves no trace
+        m0 = sc["adds"][0]["model"]
+        mdl0 = ss.models[m0]
+        before = (mdl0.n, list(mdl0.idx.v), dict(mdl0.uid), [len(p.v) for p in mdl0.params.values()], len(ss.StaticGen._idx2model))
+        raised = False
+        try:
+            ss.add(m0, dict(Vn=110.0, v0=1.0, p0=0.1))
+        except Exception:
+            raised = True
+        after = (mdl0.n, list(mdl0.idx.v), dict(mdl0.uid), [len(p.v) for p in mdl0.params.values()], len(ss.StaticGen._idx2model))
+        ev.append(dict(e="refused", model=m0, raised=bool(raised), unchanged=bool(before == after)))
     for k, op in enumerate(sc["adds"]):
         req = REQ[op["req"]]
         bus = (k % 3) + 1
